@@ -244,6 +244,36 @@ impl Engine for C05 {
                 }
             }
         }
+        // a streaming writer of key 0 whose key is removed (fully / by a removal record) by the
+        // same process after its last chunk and before its commit, after every history of
+        // length 0..=2 over a 5-symbol sub-alphabet: the commit is the most recent event
+        {
+            let sub: Vec<Step> = [0usize, 1, 4, 6, 10].iter().map(|&i| al[i].clone()).collect();
+            let mut prefixes: Vec<Vec<Step>> = vec![vec![]];
+            for a1 in &sub {
+                prefixes.push(vec![a1.clone()]);
+                for a2 in &sub {
+                    prefixes.push(vec![a1.clone(), a2.clone()]);
+                }
+            }
+            for (pi, pre) in prefixes.into_iter().enumerate() {
+                for interfere in [Interfere::RemoveKeyFully, Interfere::RemoveKey] {
+                    for fl in [Fl::Sync, Fl::Async] {
+                        let mut w = WriteSpec::simple(Some(0), (pi + 1) % 3);
+                        w.entry = if pi % 2 == 0 { WEntry::Opts } else { WEntry::Create };
+                        w.chunks = vec![2, 3];
+                        w.interfere = interfere;
+                        if w.entry == WEntry::Opts && pi % 4 == 0 {
+                            w.time = Some("7654321".into());
+                            w.metadata = Some(json!({"after": "removal"}));
+                        }
+                        let mut steps = pre.clone();
+                        steps.push(Step { op: Op::Write(w), fl });
+                        out.push(Program { keys: keys.to_vec(), blobs: blobs.to_vec(), steps });
+                    }
+                }
+            }
+        }
         // thousands of small records on one key (whatever housekeeping is triggered by a record
         // COUNT), observed around the round numbers only
         for variant in 0..2usize {
@@ -279,7 +309,7 @@ impl Engine for C05 {
     }
     fn exhaustive_note(&self, tier: Tier) -> String {
         format!(
-            "all histories of length 1..={} over a 14-symbol alphabet (2 keys + 1 never-written key, 3 values, sync and async); block-boundary, index-neighbour and long single-key histories; 24 histories that grow a bucket past 1 MiB, delete or tombstone it and grow it again, observed at marked points only (a sixth of all histories is mirrored, with other values, into a second cache of the same process); 2 histories of thousands of small records on one key observed around round record counts{}",
+            "all histories of length 1..={} over a 14-symbol alphabet (2 keys + 1 never-written key, 3 values, sync and async); block-boundary, index-neighbour and long single-key histories; 24 histories that grow a bucket past 1 MiB, delete or tombstone it and grow it again, observed at marked points only (a sixth of all histories is mirrored, with other values, into a second cache of the same process); 248 histories ending in a streamed write whose own key is removed (fully / by a record) between its last chunk and its commit; 2 histories of thousands of small records on one key observed around round record counts{}",
             tier.pick(3, 4),
             tier.pick("", "; all length-5 histories over a 6-symbol sub-alphabet")
         )
@@ -288,7 +318,25 @@ impl Engine for C05 {
         tier.pick(1000, 40000)
     }
     fn strategy(&self, tier: Tier) -> BoxedStrategy<Program> {
+        // an eighth of the streamed keyed writes have their own key removed before the commit
         basic::program(cfg(tier))
+            .prop_map(|mut p| {
+                let h = hash_of(&p);
+                for (i, st) in p.steps.iter_mut().enumerate() {
+                    if let Op::Write(w) = &mut st.op {
+                        let sel = (h >> (i % 40)) % 8;
+                        if w.streamed() && w.key.is_some() && w.interfere == Interfere::None && sel == 0 {
+                            w.interfere = if (h >> 50) % 2 == 0 { Interfere::RemoveKeyFully } else { Interfere::RemoveKey };
+                            // (no second harness-side actor between the last chunk and the commit)
+                            w.aged_hours = 0;
+                            w.crowd = 0;
+                            w.churn = 0;
+                        }
+                    }
+                }
+                p
+            })
+            .boxed()
     }
     fn run_case(&self, prog: &Program, st: &mut Stats, env: &mut WorkerEnv) -> Result<(), String> {
         env.scratch.reset();
